@@ -10,6 +10,7 @@ import (
 // them) while the later calls run.  Afterwards every kept slice is compared with the copy taken when it was returned
 // (a result must not be overwritten by a later call), then garbage is appended into the spare capacity of every kept
 // slice (which a caller is free to do) and the whole sequence is run again: every result must come out as before.
+// Before the last round the kept slices themselves are overwritten: freshly obtained results must still be right.
 // All calls run on this goroutine, several rounds, so that recycled buffers actually get recycled.
 type chainCall func() ([]byte, bool)
 
@@ -35,6 +36,14 @@ func runChain(calls []chainCall, rounds int) Res {
 				firstCopy[i], firstOK[i] = copies[i], oks[i]
 			} else if oks[i] != firstOK[i] || !bytes.Equal(copies[i], firstCopy[i]) {
 				differs[i] = true
+			}
+		}
+		// the caller writes into what it was given (last round only: the slices are the caller's; a value obtained AFTERWARDS must not care)
+		if round == rounds-2 {
+			for i := range kept {
+				for k := range kept[i] {
+					kept[i][k] ^= 0xFF
+				}
 			}
 		}
 		// the caller appends to what it was given
